@@ -125,7 +125,7 @@ func (e *Engine) LoadContracts(stdlibDir string) error {
 			}
 		}
 	}
-	return nil
+	return e.registerOpaque()
 }
 
 func (e *Engine) source(file string) []byte {
@@ -205,7 +205,10 @@ func funcKey(fn *ssa.Function) string {
 }
 
 func shortKey(key string) string {
-	return strings.TrimPrefix(strings.TrimPrefix(key, modPath+"/"), modPath+".")
+	if strings.HasPrefix(key, modPath+".") {
+		return "poly." + strings.TrimPrefix(key, modPath+".")
+	}
+	return strings.TrimPrefix(key, modPath+"/")
 }
 
 // ---- obligations ----
@@ -289,6 +292,20 @@ func (e *Engine) buildScript(decls, facts []string, goal string, negate bool) st
 		hdr.WriteString(preludeStr)
 	}
 	hdr.WriteString(preludeArith)
+	for _, o := range e.cs.Opaque {
+		all := body + specText.String()
+		if strings.Contains(all, " "+o.Sort+")") || strings.Contains(all, "("+o.Sort+".") || strings.Contains(all, " "+o.Sort+" ") {
+			hdr.WriteString("(declare-sort " + o.Sort + " 0)\n")
+		}
+	}
+	for _, o := range e.cs.Opaque {
+		all := body + specText.String()
+		if strings.Contains(all, " "+o.Sort+")") || strings.Contains(all, "("+o.Sort+".") || strings.Contains(all, " "+o.Sort+" ") {
+			if ot := opaqueSort(o.Sort); ot != nil {
+				hdr.WriteString(opaqueDecls(ot))
+			}
+		}
+	}
 	full := hdr.String() + b.String() + specText.String()
 	b.Reset()
 	b.WriteString(full)
